@@ -768,12 +768,13 @@ class ClusterTask:
     counted = True
     own_pool = True
 
-    def __init__(self, name, factory_mod, factory_name, select, replay_driver=None):
+    def __init__(self, name, factory_mod, factory_name, select, replay_driver=None, tiers=None):
         self.name = name
         self.factory_mod = factory_mod
         self.factory_name = factory_name
         self.select = select
         self.replay_driver = replay_driver
+        self.tiers = tiers          # None = every tier; otherwise the tiers in which this engine variant is run
 
     def plan(self, tier):
         return []
@@ -832,6 +833,8 @@ class ClusterTask:
         import importlib
         t0 = time.time()
         logs = []
+        if self.tiers is not None and tier not in self.tiers:
+            return {"obligations": [], "info": {"target": f"cluster:{self.name}", "skipped": f"runs in tier(s) {self.tiers} only"}}
         eng = getattr(importlib.import_module(self.factory_mod), self.factory_name)()
         r, reused = self._engine_results(eng, tier, jobs, logs)
         from .runner import ob
